@@ -550,6 +550,9 @@ def _type_name_for_error_messages(expression_type):
         return expression_type.enumeration.name.canonical_name.object_path[-1]
     elif expression_type.which_type == "boolean":
         return "boolean"
+    elif expression_type.which_type == "opaque":
+        # A structure, bits or array field passed where a scalar is expected.
+        return "a structure or array"
     assert False, "Shouldn't be here."
 
 
